@@ -57,6 +57,38 @@ for c in js['tensor_cases']:
             r = F.avg_pool2d(T(inp['x']), 2)
         elif nm == 'interpolate':
             r = F.interpolate(T(inp['x']), scale_factor=2, mode='nearest')
+        elif nm == 'view_write_a':
+            r = T(inp['x'])
+            v = r[:, :, 1:5]
+            v[:, :, 0] += v[:, :, 3]
+        elif nm == 'view_write_b':
+            r = T(inp['x'])
+            w = r[:, :, 0::2].transpose(2, 3)
+            w[:, :, 4, :] = T(inp['q'])
+        elif nm == 'view_write_c':
+            r = T(inp['x'])
+            v = r[:, 1, None, 2:, :-1]
+            v *= 3
+        elif nm == 'm_permute':
+            r = T(inp['x']).permute(*a['perm']).contiguous()
+        elif nm == 'm_unsqueeze':
+            r = T(inp['x']).unsqueeze(a['dim'])
+        elif nm == 'm_squeeze':
+            r = T(inp['x']).squeeze() if a['dim'] is None else T(inp['x']).squeeze(a['dim'])
+        elif nm == 'm_flip':
+            r = torch.flip(T(inp['x']), a['dims'])
+        elif nm == 'm_roll':
+            r = torch.roll(T(inp['x']), a['shifts'], a['dims'])
+        elif nm == 'm_chunk':
+            r = torch.chunk(T(inp['x']), a['chunks'], a['dim'])[a['pick']]
+        elif nm == 'm_split':
+            r = torch.split(T(inp['x']), a['size'], a['dim'])[a['pick']]
+        elif nm == 'm_narrow':
+            r = T(inp['x']).narrow(a['dim'], a['start'], a['length'])
+        elif nm == 'm_flatten':
+            r = T(inp['x']).flatten(a['start'], a['end'])
+        elif nm == 'm_expand':
+            r = T(inp['x']).expand(*a['sizes']).contiguous()
         else:
             bad.append((nm, 'no twin'))
             continue
